@@ -72,9 +72,41 @@ OTHER = ["T154N-R97W Sec 14: NE/4", "T154-R97 Sec 14: NE/4, Sec 15: Lots 1 - 3",
          "T154N-R97W Sec 100: NE/4"]
 
 
+# Objects that live as long as the process: the first Tract ever created and
+# one Config object that every battery re-uses (a caller may legitimately
+# share one Config among many descriptions).
+_LONG_LIVED = {}
+
+
+def long_lived(pytrs):
+    if not _LONG_LIVED:
+        _LONG_LIVED['tract'] = pytrs.Tract('x')
+        _LONG_LIVED['cfg'] = pytrs.Config('parse_qq')
+        _LONG_LIVED['cfg_layout'] = pytrs.Config('copy_all')
+    return _LONG_LIVED
+
+
 def battery(pytrs):
     P, T = pytrs.PLSSDesc, pytrs.Tract
     out = []
+    ll = long_lived(pytrs)
+    # An old object must follow the MasterConfig in force NOW.
+    out.append([ll['tract'].set_twprgesec(154, 97, 14),
+                T('y').set_twprgesec(7, 9, 1)])
+    # A shared Config object configures every description the same way.
+    for txt in ("T154N-R97W Sec 14: NE/4, NE", "T154N-R97W Sec 1: N/2NE/4NE/4"):
+        d = P(txt, config=ll['cfg'])
+        out.append([(t.trs, t.lots, t.qqs) for t in d.tracts])
+        out.append(ll['cfg'].decompile_to_text())
+    d = P("T154N-R97W Sec 14: NE/4, Sec 15: W/2", config=ll['cfg_layout'])
+    out.append([d.current_layout, [(t.trs, t.desc) for t in d.tracts],
+                ll['cfg_layout'].decompile_to_text()])
+    # Functions whose result may not depend on earlier calls with other
+    # arguments (history step 'api-variants' makes those).
+    out.append([pytrs.find_twprge("TlS4N-RIOOW Sec 14: NE/4", ocr_scrub=True),
+                pytrs.find_twprge("T154-R97 Sec 1", preprocess=True,
+                                  default_ns='s', default_ew='e'),
+                pytrs.find_twprge("T154-R97 Sec 1")])
     for txt, cfg in PROBE_PLSS:
         d = P(txt, config=cfg)
         out.append([d.pp_desc, d.current_layout,
@@ -199,7 +231,9 @@ def audit_state(pytrs):
 # -- history steps ---------------------------------------------------------------
 
 OPS = ['parse', 'parse-probe-other-cfg', 'master', 'master-toggle-restore',
-       'clear', 'usecache', 'warm', 'mutate', 'keep', 'churn', 'mutate-trs']
+       'clear', 'usecache', 'warm', 'mutate', 'keep', 'churn', 'mutate-trs',
+       'shared-config-with-keywords', 'api-variants',
+       'clear-then-warm-variants']
 
 
 def do_step(op, rng, pytrs, kept, ctx, case):
@@ -284,6 +318,35 @@ def do_step(op, rng, pytrs, kept, ctx, case):
                               f"two calls of trs_to_dict({s!r}) returned the "
                               f"same object", dedup='identity2')
             a['sec_num'] = -1
+    elif op == 'shared-config-with-keywords':
+        # Per-parse keywords on descriptions that share the long-lived
+        # Config objects must not write through into those objects.
+        ll = long_lived(pytrs)
+        d = P(rng.choice(OTHER), config=ll['cfg'])
+        d.parse(commit=rng.random() < 0.5, clean_qq=True,
+                qq_depth=rng.choice([1, 3]), break_halves=True)
+        d.parse_tracts(clean_qq=True, qq_depth_min=1)
+        d2 = P(rng.choice(OTHER), config=ll['cfg_layout'])
+        d2.parse(layout=rng.choice(['TRS_desc', 'desc_STR']), commit=False)
+        d2.parse(commit=True)
+        kept.append(d)
+    elif op == 'api-variants':
+        for txt in ("TlS4N-RIOOW Sec 14: NE/4", "T154-R97 Sec 1"):
+            pytrs.find_twprge(txt)
+            pytrs.find_twprge(txt, preprocess=True)
+            pytrs.find_twprge(txt, preprocess=True, default_ns='n',
+                              default_ew='w')
+            pytrs.find_twprge(txt, default_ns='s', default_ew='e')
+        pytrs.find_sec("Sec 3 - 1, 5")
+        TRS.from_twprgesec('15s', '9e', 1, ocr_scrub=True)
+    elif op == 'clear-then-warm-variants':
+        # One atomic step: the cache is emptied and the look-alike strings
+        # get there BEFORE the probe strings do.
+        TRS._clear_cache()
+        for s in PROBE_TRS:
+            for v in (s.upper(), s.lower(), s.swapcase(), ' ' + s, s + ' '):
+                if v != s:
+                    TRS(v)
     elif op == 'keep':
         saved = MC.default_ns
         MC.default_ns = 's'
